@@ -161,7 +161,7 @@ def evaluate(res: Result, bases: list, rng: random.Random, full: bool = False):
 
 def run(tier: str) -> int:
     res = Result('C17', tier)
-    r = tlc.run_tlc('HipRa', 'MC_HipRa.cfg', workers=8, timeout=600)
+    r = tlc.run_tlc('HipRa', 'MC_HipRa.cfg', workers=8, timeout=2400)
     tlc.check_mc(r, 'MC_HipRa.cfg', ['Calc'])
     if r['violated']:
         raise MachineryFailure(f'HipRa.tla violates {r["violated"]}')
